@@ -130,9 +130,12 @@ func run(c *core.Ctx) {
 		case 1:
 			k.Principals = []string{}
 		}
-		text, err := k.Marshal()
-		if err != nil {
-			continue
+		var text string
+		var err error
+		if p, _ := core.Guard(func() { text, err = k.Marshal() }); p || err != nil {
+			// the encoder is not under test here: the text is what a CA writes for this KeyID
+			b, _ := json.Marshal(k)
+			text = string(b)
 		}
 		co := coStates[r.Intn(len(coStates))]
 		emitType("random-keyid", &ssh.Certificate{KeyId: text, Permissions: ssh.Permissions{CriticalOptions: co.opts}}, co)
